@@ -152,7 +152,7 @@ def gen_op(rng: random.Random, cfg: dict, kind: str | None = None) -> dict:
             key = rng.choice(["@time", "@managed", "@managed"])
         op.update(n=_sel(rng, ["any"]), key=key, val=rng.choice([0.0, round(rng.random(), 3), round(rng.random(), 3)]), k=rng.randrange(16), multi=rng.random() < 0.2, reinvert=reinv)
         if inval and rng.random() < 0.3:
-            op["invalid"] = "unknown"
+            op["invalid"] = rng.choice(["unknown", "bad_value"])
     elif kind == "paint":
         vm = rng.choice(["bg", "existing", "existing", "new", "new", "new"])
         op.update(
